@@ -26,7 +26,7 @@ SPEC = {
     'C13': {'Teakra::Dma': ALL, 'Teakra::Dma::Channel': ALL, 'Teakra::Ahbm': ALL, 'Teakra::Ahbm::Channel': ALL},
     'C14': {'Teakra::DataChannel': ALL, 'Teakra::Apbp::Impl': ALL},
     'C15': {'Teakra::Timer': ALL}, 'C16': {'Teakra::Btdmp': ALL},
-    'C17': {}, 'C18': {'Teakra::RegisterState': ALL, 'Teakra::SharedMemory': ALL},
+    'C17': {}, 'C18': {'Teakra::RegisterState': ALL, 'Teakra::SharedMemory': ALL, 'Teakra::Interpreter': ['decoders']},
     'C19': {'Teakra::DataChannel': ALL, 'Teakra::Apbp::Impl': ALL, 'Teakra::ICU': ALL,
             'Teakra::Interpreter': ['interrupt_pending', 'vinterrupt_pending', 'vinterrupt_context_switch', 'vinterrupt_address']},
     'C20': {'Teakra::RegisterState': ALL},
